@@ -226,6 +226,39 @@ pub fn gen_plan(env: &Env, seed: u64, thorough: bool) -> FPlan {
                     let w = rng.pick(&words);
                     pending_word = env.keys.codes_for(w).into_iter().map(|k| (k, 0u8)).collect();
                     pending_word.remove(0).0
+                } else if rng.pct(3) {
+                    // one composition of several dozen keys, typed without anything in between
+                    // (candidates and pre-edit texts of a hundred bytes and more), read out
+                    // completely at the end
+                    let n = rng.range(30, 60) as usize;
+                    let mut keys: Vec<(u16, u8)> = match env.layout(sp.layout) {
+                        Some(l) => {
+                            let mut v = Vec::new();
+                            while v.len() < n {
+                                v.extend(burst_gen.fixed_sharp_burst(l));
+                            }
+                            v
+                        }
+                        None => (0..n).map(|_| (env.keys.code_for(*rng.pick(letters) as char).unwrap(), 0u8)).collect(),
+                    };
+                    let last = keys.pop().unwrap();
+                    let s = rng.usize(NS);
+                    for (k, m) in keys {
+                        if sug_live[s] {
+                            ops.push(FOp::SugFree { s: s as u8 });
+                        }
+                        sug_live[s] = true;
+                        let m = if sp.has(ANSI) && !sp.is_phonetic() { m & 1 } else { m };
+                        ops.push(FOp::Key { x: x as u8, key: k, m, sel: 0, s: s as u8 });
+                        if rng.pct(8) {
+                            ops.push(FOp::ReadAll { s: s as u8 });
+                        }
+                    }
+                    if sug_live[s] {
+                        ops.push(FOp::ReadAll { s: s as u8 });
+                    }
+                    burst_m = Some(last.1);
+                    last.0
                 } else if !sp.is_phonetic() && rng.pct(35) && env.layout(sp.layout).is_some() {
                     // the states the fixed composer distinguishes x the key classes that meet
                     // them specially (strings with joiners, waiting signs, odd vowel signs)
